@@ -3,6 +3,7 @@
 package rules
 
 import (
+	"golang.org/x/tools/go/ssa"
 	"sort"
 
 	"argverif/internal/core"
@@ -16,6 +17,10 @@ type Ctx struct {
 
 	edges []EdgeRule
 	memo  map[string]interface{}
+
+	// vertexEnv binds parameters of the helper / local literal whose edge site is being expanded to the arguments of
+	// the call site under consideration
+	vertexEnv map[*ssa.Parameter]ssa.Value
 }
 
 // Engine is one rule family.
